@@ -570,6 +570,24 @@ FIXED += [
      json.loads('{"result": "v1", "steps": [{"out": "v0", "table": "t0", "verb": "source"}, {"in": "v0", "items": [["r", ["fn", "round", [["col", {"c": "a"}], ["lit", -2]], {}]]], "out": "v1", "verb": "mutate"}], "tables": [{"cols": [["id", "int64"], ["a", "int64"]], "name": "t0", "rows": [[1, 1351], [2, -1251], [3, null], [4, 26]]}], "validate": "check"}')),
 ]
 
+FIXED += [
+    ('F81-floordiv-floor-of-untyped-null-column', 'C01', 'floordiv, floor and ceil of an untyped null literal column',
+     'mutate(q=None) >> mutate(r=C.q // 3) (also floor / ceil on Polars) failed at export on both backends: Polars has no abs / floor for the Null dtype, SQLAlchemy emitted FLOOR(NULL / 3) for the untyped operand, which its FLOOR function for SQLite cannot evaluate (thorough run 7, null tag columns of unions)',
+     json.loads('{"result": "v7", "steps": [{"out": "v0", "table": "t1", "verb": "source"}, {"in": "v0", "items": [["q", ["lit", null]]], "out": "v4", "verb": "mutate"}, {"in": "v4", "items": [["a_r", ["fn", "floordiv", [["col", {"n": "q", "v": "v4"}], ["lit", 3]], {}]]], "out": "v7", "verb": "mutate"}], "tables": [{"cols": [["id", "int64"], ["y", "bool"], ["c", "bool"]], "name": "t1", "rows": [[1, null, true]]}]}')),
+]
+
+FIXED += [
+    ('F82-polars-shift-wider-fill-lazy-schema', 'C07', 'Polars shift with a fill value wider than the shifted expression',
+     'Polars: the union of a Float32 column with shift(<Float32>, n, <float literal>) raised SchemaError: Polars computes the shift in the wider type but the lazy schema reports the type of the shifted expression (same family as F78; thorough run 7)',
+     json.loads('{"result": "v9", "steps": [{"out": "v0", "table": "t0", "verb": "source"}, {"in": "v0", "items": [["p", ["col", {"c": "id"}]], ["b_t1", ["cast", ["fn", "fill_null", [["col", {"n": "k", "v": "v0"}], ["col", {"c": "k"}]], {}], "datetime"]]], "out": "v1", "verb": "mutate"}, {"in": "v1", "items": [["d", ["col", {"n": "b", "v": "v1"}]], ["a_t1", ["col", {"n": "y", "v": "v0"}]]], "out": "v3", "verb": "mutate"}, {"in": "v3", "items": [["b_r", ["cast", ["col", {"n": "k", "v": "v1"}], "datetime"]], ["c", ["fn", "shift", [["col", {"n": "y", "v": "v1"}], ["lit", 3], ["lit", -18.0]], {"arrange": [[["cast", ["col", {"n": "p", "v": "v1"}], "float64"], true, "first", 1], [["col", {"c": "id"}], true, null, 0]], "partition_by": [["col", {"n": "b", "v": "v3"}], ["col", {"n": "id", "v": "v0"}]]}]]], "out": "v4", "verb": "mutate"}, {"name": "r", "out": "v5", "table": "t0", "verb": "source"}, {"in": "v5", "items": [["p", ["col", {"n": "y", "v": "v5"}]], ["b_t1", ["lit", {"$dt": "1901-02-16T06:16:47"}]], ["d", ["lit", null, "str"]], ["a_t1", ["col", {"c": "y"}]], ["b_r", ["lit", {"$dt": "1900-01-01T00:00:00"}]], ["c", ["col", {"n": "y", "v": "v5"}]]], "out": "v7", "verb": "mutate"}, {"distinct": false, "in": "v4", "out": "v9", "right": "v7", "verb": "union"}], "tables": [{"cols": [["id", "int64"], ["b", "str"], ["k", "date"], ["y", "float32"]], "name": "t0", "rows": []}]}')),
+]
+
+FIXED += [
+    ('F83-sql-union-null-first-operand-type', 'C12', 'SQL union result column of an untyped null literal takes the type of the right operand',
+     "SQLite: union(<Int aggregate>, <column of mutate(y=None) >> union(mutate(y=1.5))>) exported Int64 for the static Float column: the inner union's column was NullType-typed (taken from its first operand), so the outer Int/Float union was not cast (thorough run 7, mixed-type tag columns)",
+     json.loads('{"result": "v16", "steps": [{"out": "v0", "table": "t1", "verb": "source"}, {"name": "r", "out": "v1", "table": "t0", "verb": "source"}, {"in": "v1", "items": [["b", ["lit", {"$dt": "2000-02-29T00:00:00"}]], ["a", ["lit", "*b"]], ["x", ["lit", "\\t{x-{_"]], ["d", ["lit", -50.0]], ["k", ["lit", -35.625]]], "out": "v3", "verb": "mutate"}, {"cols": [{"c": "b"}, {"c": "id"}, {"c": "k"}, {"c": "x"}, {"c": "a"}, {"c": "d"}], "in": "v3", "out": "v4", "verb": "select"}, {"in": "v0", "items": [["y", ["lit", null]]], "out": "v5", "verb": "mutate"}, {"in": "v4", "items": [["y", ["lit", 1.5]]], "out": "v6", "verb": "mutate"}, {"distinct": false, "in": "v5", "out": "v7", "right": "v6", "verb": "union"}, {"add": false, "cols": [{"n": "y", "v": "v5"}], "in": "v7", "out": "v8", "verb": "group_by"}, {"in": "v8", "items": [["b_r", ["fn", "count_star", [], {}]]], "out": "v9", "verb": "summarize"}, {"in": "v9", "items": [["c", ["fn", "min", [["map", ["lit", "^.|+ZZ"], [[[["lit", "\'"]], ["lit", 15]]], ["col", {"n": "b_r", "v": "v9"}]]], {}]], ["y", ["fn", "count", [["col", {"n": "y", "v": "v9"}]], {}]]], "out": "v11", "verb": "summarize"}, {"in": "v8", "out": "v13", "verb": "ungroup"}, {"in": "v13", "items": [["c", ["col", {"n": "id", "v": "v13"}]]], "out": "v14", "verb": "mutate"}, {"cols": [{"c": "y"}, {"c": "c"}], "in": "v14", "out": "v15", "verb": "select"}, {"distinct": false, "in": "v11", "out": "v16", "right": "v15", "verb": "union"}], "tables": [{"cols": [["id", "int64"], ["y", "bool"], ["c", "date"]], "name": "t0", "rows": []}, {"cols": [["id", "int64"], ["b", "datetime_ms"], ["a", "str"], ["x", "str"], ["d", "int64"], ["k", "float64"]], "name": "t1", "rows": []}], "validate": "check"}')),
+]
+
 
 def main():
     log = subprocess.run(["git", "-C", "/repo", "log", "--format=%h %s"], capture_output=True, text=True).stdout.splitlines()
